@@ -2,7 +2,7 @@
    semantics" is a THEOREM, so that every check can report, per program it ran, whether the
    agreement it observed was proved or only sampled. *)
 From GV Require Import Base.Util Lang.Ast Lang.Wt Compile.Lower Compile.TSem Panic.PanicRec Panic.PanicSem
-  Compile.TSemFacts Compile.TSemSemExpr Compile.TSemSemStmt Compile.TSemSemCall Compile.TSemSemMatch Compile.TSemSemFull.
+  Compile.TSemFacts Compile.TSemSemExpr Compile.TSemSemStmt Compile.TSemSemCall Compile.TSemSemMatch Compile.TSemSemFull Compile.TSemSemFullCall Compile.TSemSemFullConst.
 From GV Require Lang.Sem.
 
 (* main has scalar parameters, no global constants, and its body is in the imperative scalar
@@ -60,12 +60,12 @@ Qed.
 Print Assumptions in_proved_fragment_sound.
 
 (* THE FULL FRAGMENT (Compile/TSemSemFull.v): all expression, statement and pattern forms except
-   calls, the join built-ins and `*` with a literal operand, over values of every type; programs
-   without global constants.  The arguments must be canonical encodings (decode-then-encode is the
+   the join built-ins and `*` with a literal operand, over values of every type; with function
+   calls (TSemSemFullCall.v) and global constants (TSemSemFullConst.v).  The arguments must be canonical encodings (decode-then-encode is the
    identity on them: e.g. zero padding bits of enums): [canonical_main_args], a boolean test per
    input that the extracted checker evaluates as well. *)
 Definition covered_program (fw : nat) (P : program) : bool :=
-  in_proved_fragment fw P || in_full_fragment fw P.
+  in_proved_fragment fw P || in_full_fragment fw P || in_full_fragment2 fw P || in_full_fragment3 fw P.
 
 Theorem covered_program_sound P fuel fw fT args o outs :
   covered_program fw P = true -> canonical_main_args P args = true ->
@@ -76,9 +76,14 @@ Theorem covered_program_sound P fuel fw fT args o outs :
   | Sem.RunStuck _ | Sem.RunNoFuel => True
   end.
 Proof.
-  unfold covered_program. intros H Hc Hr. apply orb_true_iff in H as [H|H].
+  unfold covered_program. intros H Hc Hr.
+  apply orb_true_iff in H as [H|H]; [apply orb_true_iff in H as [H|H]; [apply orb_true_iff in H as [H|H]|]|].
   - now apply in_proved_fragment_sound with (fw := fw) (fT := fT).
   - pose proof (in_full_fragment_sound P fuel fw fT args o outs H Hc Hr) as HH.
+    destruct (Sem.run_main fuel P args); auto.
+  - pose proof (in_full_fragment2_sound P fuel fw fT args o outs H Hc Hr) as HH.
+    destruct (Sem.run_main fuel P args); auto.
+  - pose proof (in_full_fragment3_sound P fuel fw fT args o outs H Hc Hr) as HH.
     destruct (Sem.run_main fuel P args); auto.
 Qed.
 Print Assumptions covered_program_sound.
